@@ -41,9 +41,9 @@ def run(tier, seed):
     ck.notes["vectors_generated"], ck.notes["vectors_replayed"] = total, kept
     ck.binary = vlib.build_harness()
     rr = vlib.run_harness(ck.binary, PROP, vec, seed=seed, tier=tier, shards=4, timeout=3000)
-    os.unlink(vec)
     ck.absorb(rr)
-    ck.triage(rr.divs)
+    ck.triage(rr.divs, rerun=rr.again)
+    os.unlink(vec)
     ck.exhaustive = kept == total
     ck.rule = ("TLC enumerates (shape, value, template) triples of spec/ProtoRewrite.tla (every 1-field shape, all 2-field shapes over a "
                "seeded subset of kinds; templates set scalars, replace repeated and map fields, rewrite nested messages, and bit-or integer fields through RewriterRules / BitOr, nested rules included) with the "
